@@ -217,6 +217,6 @@ int main(int argc, char **argv) {
   std::vector<vf::Part> parts;
   parts.push_back({"c15.random", [](uint64_t, Rng &rng, CaseResult &r) { randomCase(rng, r); }, 10});
   parts.push_back({"c15.computeRows", [](uint64_t, Rng &rng, CaseResult &r) { computeRowsCase(rng, r); }, 10});
-  parts.push_back({"c15.exhaustive", [](uint64_t idx, Rng &, CaseResult &r) { exhaustiveCase(idx, r); }, 120});
+  parts.push_back({"c15.exhaustive", [](uint64_t idx, Rng &, CaseResult &r) { exhaustiveCase(idx, r); }, 20});
   return vf::runMain(argc, argv, parts);
 }
